@@ -715,3 +715,47 @@ func (m *RWMutex) RUnlock() {
 	}
 	r.release(&m.st, false)
 }
+
+// ---------------------------------------------------------------------------
+// Pool replaces sync.Pool in instrumented code (instr -pools). sync.Pool keeps per-P caches the runtime empties at
+// its own discretion: which buffer a Get returns is not reproducible. Pool is one LIFO free list per pool, shared
+// by all tasks (the most sharing a real pool can exhibit), guarded by a real mutex that is never held across a
+// yield, and emptied by ResetPools.
+type Pool struct {
+	New  func() any
+	mu   sync.Mutex
+	free []any
+	gen  int64
+}
+
+var poolGen atomic.Int64
+
+// ResetPools makes every Pool forget what it holds: the next Get of each pool calls New.
+func ResetPools() { poolGen.Add(1) }
+
+func (p *Pool) Get() any {
+	p.mu.Lock()
+	if g := poolGen.Load(); p.gen != g {
+		p.gen, p.free = g, nil
+	}
+	if n := len(p.free); n > 0 {
+		x := p.free[n-1]
+		p.free = p.free[:n-1]
+		p.mu.Unlock()
+		return x
+	}
+	p.mu.Unlock()
+	if p.New != nil {
+		return p.New()
+	}
+	return nil
+}
+
+func (p *Pool) Put(x any) {
+	p.mu.Lock()
+	if g := poolGen.Load(); p.gen != g {
+		p.gen, p.free = g, nil
+	}
+	p.free = append(p.free, x)
+	p.mu.Unlock()
+}
